@@ -77,6 +77,8 @@ def c10(run):
     points = 0
     try:
         for s in chosen:
+            if len(run.violations) >= 12:
+                break
             u = Universe()
             setup = cf.parse_history(s["setup"])
             call = cf.parse_call(s["call"])
@@ -99,6 +101,8 @@ def c10(run):
             objs0, metas0 = observe(u, root0, pids, fmts)
             ns = range(len(states)) if not quick else sorted(set(pick(rng, range(len(states)), 10)) | {0, len(states) - 1})
             for n in ns:
+                if len(run.violations) >= 12:
+                    break           # enough concrete counter-examples; every further point would cost watchdog time
                 points += 1
                 st, root = cf.abstract_snapshot(u, states[n], base, pids, fmts, "re")
                 mw = mres[n].rsplit(" len=", 1)[0]
@@ -418,6 +422,56 @@ def c09(run):
                                       {"setup": seq.strip(setup), "call": seq.strip([call])[0], "operation": pop})
             prev = (op, snap)
     run.extra["instants_observed"] = instants
+    # ---- concurrent observer: the directory as a concurrent reader sees it after EVERY step of random schedules of two / three
+    #      writers (same pid with different formats, same content under different pids, store against delete)
+    import sched as sch_mod
+    POOLS = [("", "sm 1 0 p 1 3 || sm 1 1 p 2 2"), ("sm 1 0 p 1 2", "sm 1 0 p 2 3 || sm 1 1 p 1 2 || dm 1 0"),
+             ("", "so 1 p 7 3 n n || so 2 p 7 3 n n"), ("so 1 p 7 3 n n", "so 2 p 7 3 n n || del 1"),
+             ("so - p 7 3 n n", "tag 1 7 || tag 2 7 || so 3 p 8 2 n n"), ("so 1 p 7 3 n n ; sm 1 0 p 1 2", "del 1 || sm 1 0 p 2 3")]
+    for setup_t, calls_t in POOLS:
+        setup = cf.parse_history(setup_t)
+        calls = [cf.parse_call(x) for x in calls_t.split("||")]
+        for k in range(4 if quick else 40):
+            u = Universe()
+            seq.prepare(u, setup + calls)
+            supplied = {b""}
+            for c in setup + calls:
+                if c["op"] == "sm":
+                    supplied.add(b"" if c["n"] == 0 else u.content(1000 + c["v"], c["n"]))
+            bad_box = []
+
+            def on_step(im, sc, i, bad_box=bad_box, supplied=supplied, u=u):
+                if bad_box:
+                    return
+                with fsmon._Suppress():
+                    snap = cf.snapshot_tree(im.root)
+                b = integrity_problems(u, snap, supplied)
+                if b:
+                    bad_box.append((len(sc.steps), i, b[0]))
+            r = sch_mod.run_schedule(u, [dict(c) for c in setup], [dict(c) for c in calls], rng=random.Random(rng.random()),
+                                     sticky=rng.choice([0.0, 0.6, 0.9]), on_step=on_step)
+            instants += len(r["schedule"])
+            run.case("observer/concurrent", (calls_t, tuple(r["schedule"])), nontrivial=True,
+                     sample={"search": "directory observed after every step of a concurrent schedule", "setup": setup_t, "calls": calls_t, "steps": len(r["schedule"])})
+            if bad_box:
+                step, th, what = bad_box[0]
+                run.violation({"kind": "integrity-concurrent", "what": what.split(" ")[0]},
+                              "during [%s] after [%s], after step %d of schedule %s: %s" % (calls_t, setup_t, step, ",".join(map(str, r["schedule"][:step])), what),
+                              {"setup": setup_t, "calls": calls_t, "schedule": ",".join(map(str, r["schedule"]))})
+                break
+    run.extra["instants_observed"] = instants
+    # ---- P-trace over states reached by random histories: the operation sequence of the LAST call of each history
+    A = seq.alphabet("all", contents={7: 1, 8: 2}, pids=(1, 2, 3))
+    for _ in range(40 if quick else 500):
+        h = seq.random_history(rng, A, rng.randint(1, 7))
+        for c in h:
+            c.pop("real", None)
+            if c["op"] == "so":
+                c["n"] = {7: 1, 8: 2}[c["b"]]
+        u = Universe()
+        for _i in range(2):
+            seq.prepare(u, h)
+        trace_case(run, u, h[:-1], h[-1], "P-trace/random", ["integrity_invariant (the programs are what the code does)"])
 
 
 CHECKS = {"C10": c10, "C13": c13, "C09": c09}
